@@ -22,6 +22,7 @@ EXHAUSTIVE = {"quick": False, "thorough": False}
 EXHAUSTIVE_NOTE = {"quick": "ASCII 0..127 x 3 positions x 2 base words; every isspace character",
                    "thorough": "ASCII 0..127 x 3 positions x 6 base words; every isspace character"}
 ASSUMPTIONS = [
+    "warning filters that escalate warnings to errors are not part of the driven environment (a library may legitimately warn)",
     "whitespace = characters for which Python's str.isspace() is true; upper-casing = str.upper() (so a character such "
     "as U+00DF whose upper() is 'SS' normalises to two residues)",
     "str subclasses and objects with exotic __eq__ are not driven (statement silent)",
